@@ -136,14 +136,30 @@ class VStr(V):
     def const(self):
         t = self.t
         if z3.is_string_value(t):
-            return t.as_string()
+            return z3_str_value(t)
         t = z3.simplify(t)
         if z3.is_string_value(t):
-            return t.as_string()
+            return z3_str_value(t)
         return None
 
     def __repr__(self):
         return f"VStr({self.t})"
+
+
+_ESC = None
+
+
+def z3_str_value(t) -> str:
+    """Python str of a z3 string literal.  `as_string()` prints code points outside
+    printable ASCII as \\u{hex}; decode them (needed for non-ASCII table keys)."""
+    global _ESC
+    s = t.as_string()
+    if "\\u{" not in s:
+        return s
+    if _ESC is None:
+        import re
+        _ESC = re.compile(r"\\u\{([0-9a-fA-F]+)\}")
+    return _ESC.sub(lambda m: chr(int(m.group(1), 16)), s)
 
 
 class VNoneT(V):
